@@ -18,6 +18,11 @@ class C02(ProgramProperty):
             "prefix, or an identifier containing the delimiter. 35 % of the converters are built through a history (part of the records, queries, then new records and merges that add synonyms, optionally a rejected call); 30 % live on and receive a late record whose names include one containing the delimiter, after which every name of that record is queried.")
     assumptions = ["prefixes that violate DelimOK although they do not contain the delimiter are known finding K2"]
 
+    def exhaustive(self, tier):
+        from .. import smallscope
+
+        return smallscope.run(self.id, tier)
+
     def gen(self, rng, tier):
         delim = rng.choice(gen.DELIMS)
         recs = gen.records(rng, delim)
